@@ -391,7 +391,7 @@ func Universe(quick bool) []Case {
 	var vals []ref.Val
 	vals = append(vals, ref.Trees(n, ref.LeavesSmall())...)
 	vals = append(vals, ref.Sweep(append(ref.ScalarsFull(), ref.UintsBig()...))...)
-	vals = append(vals, c02.PermutedMaps(ref.ComparatorKeys[:6], 3)...)
+	vals = append(vals, c02.PermutedMaps(ref.LinkOrderKeys, 3)...)
 	var cases []Case
 	for _, codec := range Codecs {
 		protos := MainProtos(codec)
